@@ -44,3 +44,29 @@ PROPS["C10"] = dict(
         fuzz("root", ".", "FuzzVerifC10ParseExtensions", "60s"),
     ],
 )
+
+SIM = ["sim*.go"]
+
+def sim(run, q, t, qs=1, ts=16, kind="rapid", **kw):
+    u = dict(area="ctlog", pkg="internal/ctlog", run=run, kind=kind)
+    if kind == "rapid":
+        u.update(quick=dict(checks=q, shards=qs), thorough=dict(checks=t, shards=ts))
+    else:
+        u.update(quick=dict(n=q, shards=qs), thorough=dict(n=t, shards=ts))
+    u.update(kw)
+    return u
+
+PROPS["C01"] = dict(
+    level="fault_enumeration",
+    rule=("rapid-generated histories of up to 8 sequencing rounds (pool sizes steered to tile boundaries, empty and multi-tile rounds, duplicates) "
+          "with 0-3 fault directives per round over the round's storage/lock operations (error or crash, applied or not applied, subset masks over the "
+          "parallel tile uploads), restarts under faults and clock anomalies (stall, backwards, jump); plus an exhaustive single-fault sweep of short histories; "
+          "non-trivial = >=2 committed checkpoints of different size and at least one fired fault, crash+restart, clock anomaly or tile-boundary crossing; "
+          "distinct = hash of the executed history descriptor"),
+    assumptions=["the simulated lock store is a correct CAS register and in-flight operations of a crashed process take effect at the crash instant or never",
+                 "leaf timestamps equal the tree head timestamp of the round that sequenced them (what the code does), used to predict roots"],
+    technique="stateful property-based testing over a fault-injecting storage/lock simulator with an independent RFC 6962 model",
+    units=[
+        sim("^TestVerifC01History$", 300, 1500, files=["sim*.go", "c01*.go"]),
+    ],
+)
